@@ -23,8 +23,9 @@
 (* input with 2 micro.  A nodal balance of one three-phase solve (<= 12 terms, each rounded to 1 micro) gets 100       *)
 (* micro-MW absolute: the zero / negative sequence voltages lag the positive sequence by one iteration when the loop  *)
 (* stops, so the per-phase residual is larger than the stopping tolerance; the largest residual measured over the     *)
-(* thorough space is 1.1 micro-MW (Yzn, whose zero-sequence path converges slowly; evidence key                       *)
-(* max_per_phase_nodal_residual_mw_non_slack), balanced cases agree with runpp to 1e-11.  The smallest power of any    *)
+(* thorough space is 1.1 micro-MW with seed 0 and 6.8 micro-MW with seed 1 (Yzn, whose zero-sequence path converges  *)
+(* slowly; evidence key max_per_phase_nodal_residual_mw_non_slack), balanced cases agree with runpp to 1e-11.  The     *)
+(* smallest power of any                                                                                              *)
 (* element phase in the generated networks is 420 micro-Mvar, so a dropped / doubled / mis-signed contribution is far  *)
 (* outside every tolerance.                                                                                           *)
 EXTENDS Phase3Def, Fix, Json, IOUtils
